@@ -499,11 +499,12 @@ func c12BuildRepeat(tier string) core.Source {
 		for _, args := range [][]string{{"-rc"}, {"-rtc"}, {"-rcI"}} {
 			cases = append(cases, cs{arr, args, 1})
 		}
+		cases = append(cases, cs{arr, []string{"-rt"}, 2})
 	}
 	mtimes := []struct{ sec, nsec int64 }{{0, 0}, {1, 0}, {-1, 0}, {-2, 500000000}, {-1 << 31, 0}, {1<<31 - 1, 0}, {1<<31 - 1, 999999999}, {tm.Past, 999999999}, {tm.Past, 1}, {86400 * 365 * 40, 123456789}}
 	return core.FuncSource{N: len(cases), F: func(i int) core.Result {
 		c := cases[i]
-		res := core.Result{Case: fmt.Sprintf("real sessions arr=%s args=%v kind=%s", c.arr, c.args, []string{"sync twice, second run must be a no-op", "checksum rule with the real sender's list checksums"}[c.kind])}
+		res := core.Result{Case: fmt.Sprintf("real sessions arr=%s args=%v kind=%s", c.arr, c.args, []string{"sync twice, second run must be a no-op", "checksum rule with the real sender's list checksums", "big sparse files"}[c.kind])}
 		ff := []string{"part", "repeat", "arr", c.arr, "kind", fmt.Sprint(c.kind)}
 		var src, dst tm.Tree
 		if c.kind == 0 {
@@ -540,6 +541,67 @@ func c12BuildRepeat(tier string) core.Source {
 					}
 				}
 			}
+		}
+		if c.kind == 2 {
+			// sparse files whose lengths need the 64-bit encoding, already up to date at the destination:
+			// the size comparison must see equal sizes (nothing is requested, so no data moves)
+			res.Case = fmt.Sprintf("real session arr=%s args=%v: sparse files of 2^31-1 .. 5 GiB already up to date at the destination", c.arr, c.args)
+			dir := workDir()
+			defer cleanup(dir)
+			sizes := map[string]int64{"s31m1": 1<<31 - 1, "s31": 1 << 31, "s3g": 3 << 30, "s32m1": 1<<32 - 1, "s32": 1 << 32, "s32p5": 1<<32 + 5, "s5g": 5 << 30}
+			inos := map[string]uint64{}
+			for _, side := range []string{"src", "dst"} {
+				os.MkdirAll(filepath.Join(dir, side), 0o755)
+				for n, sz := range sizes {
+					p := filepath.Join(dir, side, n)
+					if err := os.WriteFile(p, nil, 0o644); err != nil {
+						res.Inconcl = err.Error()
+						return res
+					}
+					if err := os.Truncate(p, sz); err != nil {
+						res.Inconcl = "sparse files unsupported here: " + err.Error()
+						return res
+					}
+					setMtime(p, tm.Past, 0)
+				}
+			}
+			os.WriteFile(filepath.Join(dir, "src", "small"), []byte("new"), 0o644)
+			stat := func(n string) (ino uint64, size int64, ok bool) {
+				var st unix.Stat_t
+				if err := unix.Lstat(filepath.Join(dir, "dst", n), &st); err != nil {
+					return 0, 0, false
+				}
+				return st.Ino, st.Size, true
+			}
+			for n := range sizes {
+				inos[n], _, _ = stat(n)
+			}
+			out := drive.Run(drive.Job{Arr: c.arr, Args: c.args, Base: dir, Sources: []string{"src/"}, Dest: filepath.Join(dir, "dst")})
+			cnt(&res, "transitions", 1)
+			cnt(&res, "states", int64(len(sizes)))
+			cnt(&res, "traces_validated_against_impl", 1)
+			if !out.OK() {
+				res.Fail = core.Fail("session_failed", out.ErrString()+" | "+tail(out.Stderr, 300), ff...)
+				return res
+			}
+			if _, _, ok := stat("small"); !ok {
+				res.Fail = core.Fail("file_missing", "small", ff...)
+				return res
+			}
+			for n, sz := range sizes {
+				ino, size, ok := stat(n)
+				if !ok || size != sz {
+					res.Fail = core.Fail("content_mismatch", fmt.Sprintf("%s: size afterwards %d (present %v), want %d", n, size, ok, sz), ff...)
+					return res
+				}
+				if ino != inos[n] {
+					res.Fail = core.Fail("transferred_but_rule_says_up_to_date", fmt.Sprintf("%q (%d bytes, same size and mtime on both sides) was transferred again", n, sz), ff...)
+					return res
+				}
+			}
+			res.Nontrivial = true
+			res.Outcome = "ok/big-sizes"
+			return res
 		}
 		sc := &syncCase{Arr: c.arr, Args: c.args, Src: src, Dst: dst, Form: "contents"}
 		sr, err := sc.run(false)
@@ -640,7 +702,7 @@ func init() {
 		ID:    "C12",
 		Level: "model_checking",
 		Rule: "table: the complete decision table {missing, same size, different size} x {mtime equal, +1s, -1s, sub-second only, far apart, previous second +0.6 s, next second +0.4 s, same second +0.999999999 s} x {content equal, different} x {default,-c,-I,-cI} x {-t on/off} plus non-regular destination entries, each embedded at first/middle/last position of a 3-file directory, in both receiver roles (library client vs scripted server; daemon module vs scripted uploading client); the scripted reference sender records the requested indices. " +
-			"histories: explicit-state BFS (canonical-state dedup) over {touch +1s/-1s/+0.5s, rewrite same size, rewrite other size} on 2 source files and sync(o) for o in {-rt,-a,-rc,-rtI,-r} as real lib-pull sessions; every sync's request set (decoded from the wire) must equal the reference rule evaluated on the model state, no-op syncs must move no data, and the model's successor state is validated against the real destination. repeat: whole sessions between the real sender and receiver in 5 arrangements x 6 option sets run twice over a tree of boundary mtimes (0, +-1, pre-1970 with fraction, -2^31, 2^31-1, .999999999) x sizes {0,700} incl. nested entries and symlinks: the second run must leave every entry the same file system object with identical metadata (with -I: every file replaced, nothing else changed); and the -c rule judged with the real sender's list checksums for 10 sizes 0..1 MiB around its 256 KiB buffer (equal content / other mtime must stay, equal size+mtime / one differing byte must be replaced). states = table cells + distinct BFS states, transitions = sessions",
+			"histories: explicit-state BFS (canonical-state dedup) over {touch +1s/-1s/+0.5s, rewrite same size, rewrite other size} on 2 source files and sync(o) for o in {-rt,-a,-rc,-rtI,-r} as real lib-pull sessions; every sync's request set (decoded from the wire) must equal the reference rule evaluated on the model state, no-op syncs must move no data, and the model's successor state is validated against the real destination. repeat: whole sessions between the real sender and receiver in 5 arrangements x 6 option sets run twice over a tree of boundary mtimes (0, +-1, pre-1970 with fraction, -2^31, 2^31-1, .999999999) x sizes {0,700} incl. nested entries and symlinks: the second run must leave every entry the same file system object with identical metadata (with -I: every file replaced, nothing else changed); and the -c rule judged with the real sender's list checksums for 10 sizes 0..1 MiB around its 256 KiB buffer (equal content / other mtime must stay, equal size+mtime / one differing byte must be replaced); and sparse files of 2^31-1, 2^31, 3 GiB, 2^32-1, 2^32, 2^32+5, 5 GiB that are up to date must not be transferred again. states = table cells + distinct BFS states, transitions = sessions",
 		Assum: []string{"reference rule as stated in the property", "mtimes written as 'now' by a transfer never equal the alphabet's source mtimes (2009)"},
 		Parts: func(tier string) []core.Part {
 			return []core.Part{{Name: "table", Build: c12BuildTable}, {Name: "histories", Build: c12BuildHistories}, {Name: "repeat", Build: c12BuildRepeat}}
